@@ -4,19 +4,22 @@ C06 — which connectors a transaction looks at again.  Property theorems about 
 router.cpp by Driver/C06.lean: per transaction the model's rerouted set = `ConnRef::needsRepaint()`,
 and — with the guarded hook — flags, `m_route_dist` and the static-graph flag at the start of routing).
 
-* noop:        `noop_flags_nothing`, `settings_only_transaction_keeps_flags`
+* noop:        `noop_flags_nothing`, `settings_only_transaction_keeps_flags`, `txnOf_spec` (the decision runs exactly
+               at the processing points of the queue model)
 * safety:      `skip_sound_registration` (a connector that is NOT flagged: none of its registered edges has an
                end at a removed/moved obstacle, none is reported blocked by an added/moved shape, its ends
-               did not change), `skip_sound_leg` (… hence, for strictly convex counter-clockwise shapes in
+               did not change; positive form `touched_or_blocked_edge_flags`), `skip_sound_leg` (… hence, for strictly convex counter-clockwise shapes in
                general position, the edge does not enter the shape), `covered_after_routing`,
                `covered_preserved` (the invariant "every leg of the route is registered"),
-               `skip_sound_route_valid` (the old route is valid for the new scene)
+               `skip_sound_route_valid` (the old route is valid for the new scene), `new_scene_obstacle_cases`
+               (what the new scene consists of, from Model/ActionQueue.runPasses)
 * flags stick: `flag_persists` (never routed / no path found / end changed earlier), `endpoint_change_flags`,
                `orthogonal_always_rerouted`
 * removal:     `removal_estimate_min_horizontal/_vertical` (start and end on the same side of the side's line:
                the as-coded point minimises the detour over the side, for EVERY norm-like length),
-               `removal_flag_complete_same_side` (then the as-coded test flags whenever a path through a point of
-               that side would be shorter), `removal_estimate_incomplete_witness` (without "same side" the
+               `removal_flag_complete_same_side`, `removal_complete_shorter_path_same_side` (then the as-coded test
+               flags whenever a path through a point of that side would be shorter), `removal_estimate_repaired_min`
+               (with |b|, |d| — the proposed repair — the condition is not needed), `removal_estimate_incomplete_witness` (without "same side" the
                estimate is only a heuristic: closed scene, replayed against the C++ — a genuine defect),
                `estLess_sound` (the driver's three-valued comparison never contradicts an exact one)
 -/
@@ -61,6 +64,26 @@ theorem noop_flags_nothing (lt3 : Lt3) (rpOld rpNew : Polys) (st : State) (rst :
       AdaptaVerif.Model.ActionQueue.step st .processTransaction = st := by
   refine ⟨?_, (AdaptaVerif.Props.C06.noop_txn st hq).2⟩
   simp [decide?, txnOf, hq]
+
+/-- **txnOf_spec.** The reroute decision runs exactly at the processing points of the queue model: if
+    `txnOf st op = some pre` the call performs `processActions pre` (and `pre` has something queued), and if it
+    is `none` the call leaves the scene as the queueing part left it — nothing is processed, no connector is
+    looked at. -/
+theorem txnOf_spec (st : State) (op : Op) :
+    (∀ pre, txnOf st op = some pre →
+        AdaptaVerif.Model.ActionQueue.step st op = AdaptaVerif.Model.ActionQueue.processActions pre ∧ pre.queue ≠ []) ∧
+    (txnOf st op = none →
+        (AdaptaVerif.Model.ActionQueue.step st op).scene = (AdaptaVerif.Model.ActionQueue.enqueue st op).1.scene) := by
+  have hne : ∀ q : List Action, q.isEmpty = false → q ≠ [] := by intro q h e; rw [e] at h; simp at h
+  cases op
+  case processTransaction =>
+    simp only [txnOf, AdaptaVerif.Model.ActionQueue.step, AdaptaVerif.Model.ActionQueue.processTransaction,
+      AdaptaVerif.Model.ActionQueue.enqueue]
+    cases hq : st.queue.isEmpty <;> simp [hq, hne]
+  all_goals
+    simp only [txnOf, AdaptaVerif.Model.ActionQueue.step, AdaptaVerif.Model.ActionQueue.processTransaction]
+    generalize AdaptaVerif.Model.ActionQueue.enqueue st _ = r
+    cases h1 : r.1.useTxn <;> cases h2 : r.2 <;> cases h3 : r.1.queue.isEmpty <;> simp [h1, h2, h3, hne]
 
 /-- a transaction with an empty action list (only `m_settings_changes`) raises no flag -/
 theorem settings_only_transaction_keeps_flags (lt3 : Lt3) (rpOld rpNew : Polys) (rst : RState)
@@ -111,6 +134,25 @@ theorem skip_sound_registration (cid : Nat) (lt3 : Lt3) (rpOld rpNew : Polys) (a
     · cases ht : r.touchesKey (VKey.ofEnd a.id u.1)
       · rfl
       · exact absurd ⟨hk, u, hu, Or.inl ht⟩ hn
+
+/-- **touched_or_blocked_edge_flags** (positive form of (a) and (b)): if an edge on which `cid` is registered has
+    an end at a corner of a removed / moved obstacle, or is reported blocked by an added / moved shape, then
+    `cid` is flagged when routing starts. -/
+theorem touched_or_blocked_edge_flags (cid : Nat) (lt3 : Lt3) (rpOld rpNew : Polys) (acts : List Action) (rst : RState)
+    (r : Reg) (hex : ∃ c ∈ rst.conns, c.id = cid) (hr : r ∈ rst.regs) (hc : r.conn = cid) (a : Action) (ha : a ∈ acts)
+    (h : ((a.kind = .remove ∨ a.kind = .move) ∧ r.touchesObst a.id = true) ∨
+         ((a.kind = .add ∨ a.kind = .move) ∧ edgeBlocked (rpNew a.id) r = true)) :
+    ∃ c ∈ (flagTxn lt3 rpOld rpNew acts rst).conns, c.id = cid ∧ c.needsReroute = true := by
+  rcases flagTxn_reg cid lt3 rpOld rpNew acts rst r hex hr hc with hf | ⟨h1, h2, _, _⟩
+  · exact hf
+  · exfalso
+    rcases h with ⟨hk, ht⟩ | ⟨hk, hb⟩
+    · have := h1 a ha
+      unfold bad1 at this
+      rcases hk with hk | hk <;> simp [hk, ht] at this
+    · have := h2 a ha
+      unfold bad2 at this
+      rcases hk with hk | hk <;> simp [hk, hb] at this
 
 /-- **skip_sound_leg.** … and therefore, if the added / moved shape is a strictly convex counter-clockwise
     polygon, no vertex of it lies in the open edge and the ends of the edge are not strictly inside it (the
